@@ -15,7 +15,7 @@ pub fn def() -> PropDef {
     PropDef {
         info: PropInfo {
             id: "C08",
-            rule: "programs with 1-4 helper call sites; helper ids from {0,1,6,0x7fffffff,0x80000000,0xffffffff,random u32}, a random subset registered onto three distinct instrumented 5-argument helpers; each site loads five boundary-heavy, pairwise distinct arguments into r1-r5, keeps sentinels in r6-r9 and a spilled copy of r10, and is placed at top level or inside local functions at depth 1-8, the deepest legal nesting (interpreter and JIT; Cranelift gets the top-level-only programs); call instructions carry junk dst/off fields; unregistered ids are placed on executed or on never-executed paths. Every helper is entered through an assembly stub that records rsp. Oracle per engine: log of (function identity, a1..a5) equals the reference model's call sequence, (rsp+8)%16==0 at every call, result equals the model, sentinels and r10 fold to the expected value; an unregistered id gives an interpreter Err only if reached (and Ok with the model value if not), gives a compile-time Err from both compilers, and nothing is invoked beyond the model's log. Non-trivial = at least one executed helper call with pairwise distinct arguments; distinct by hash.",
+            rule: "programs with 1-4 helper call sites; helper ids from {0,1,6,0x7fffffff,0x80000000,0xffffffff,random u32}, a random subset registered onto three distinct instrumented 5-argument helpers; each site loads five boundary-heavy, pairwise distinct arguments into r1-r5, keeps sentinels in r6-r9 and a spilled copy of r10, runs under a stack-usage calculator returning a generated frame size from {0,8,16,24,40,56} for every function, and is placed at top level or inside local functions at depth 1-8, the deepest legal nesting (interpreter and JIT; Cranelift gets the top-level-only programs); call instructions carry junk dst/off fields; unregistered ids are placed on executed or on never-executed paths. Every helper is entered through an assembly stub that records rsp. Oracle per engine: log of (function identity, a1..a5) equals the reference model's call sequence, (rsp+8)%16==0 at every call, result equals the model, sentinels and r10 fold to the expected value; an unregistered id gives an interpreter Err only if reached (and Ok with the model value if not), gives a compile-time Err from both compilers, and nothing is invoked beyond the model's log. Non-trivial = at least one executed helper call with pairwise distinct arguments; distinct by hash.",
             assumptions: &["the Rust-ABI helper type coincides with the C ABI for five u64 arguments on x86-64 (rbpf's JITs rely on the same fact)", "reference model for register effects of call/exit"],
         },
         run,
@@ -41,6 +41,8 @@ pub struct HProg {
     sites: Vec<Site>,
     sentinels: [u64; 4],
     vm_raw: bool,
+    /// frame size returned by the stack-usage calculator for every function (0 = shared frame)
+    frame: u16,
 }
 
 fn id_strategy() -> impl Strategy<Value = u32> {
@@ -51,8 +53,8 @@ pub fn hprog(max_depth: u8) -> impl Strategy<Value = HProg> {
     let ids = prop::collection::vec((id_strategy(), prop_oneof![6 => prop::sample::select(vec![0u8, 1, 6]).prop_map(Some), 1 => Just(None)]), 1..4);
     let site = (any::<u8>(), [interesting_u64(), interesting_u64(), interesting_u64(), interesting_u64(), interesting_u64()], 0..=max_depth, any::<u32>(), prop::bool::weighted(0.1))
         .prop_map(|(id_sel, args, depth, junk, dead)| Site { id_sel, args, depth, junk, dead });
-    (ids, prop::collection::vec(site, 1..5), [interesting_u64(), interesting_u64(), interesting_u64(), interesting_u64()], any::<bool>())
-        .prop_map(|(ids, sites, sentinels, vm_raw)| HProg { ids, sites, sentinels, vm_raw })
+    (ids, prop::collection::vec(site, 1..5), [interesting_u64(), interesting_u64(), interesting_u64(), interesting_u64()], any::<bool>(), prop::sample::select(vec![0u16, 0, 8, 16, 24, 40, 56]))
+        .prop_map(|(ids, sites, sentinels, vm_raw, frame)| HProg { ids, sites, sentinels, vm_raw, frame })
 }
 
 fn lddw(out: &mut Vec<Insn>, dst: u8, v: u64) {
@@ -139,7 +141,7 @@ pub fn lower(p: &HProg) -> ExecCase {
     }
     case.helpers = ids.iter().filter_map(|(id, p)| p.map(|p| (*id, p))).collect();
     // nested chains deeper than one level need small frames: 512 / 256 only allows depth 1
-    case.calc = Some((vec![], 56));
+    case.calc = Some((vec![], p.frame));
     case
 }
 
